@@ -356,6 +356,61 @@ example : uniquify .chain 100 [[0, 99905], [100004, 0], [100006, 0]] =
     { pts := [[0, 99905], [100004, 0]], new2old := [0, 1], old2new := [0, 1, 1] } := by
   decide +kernel
 
+/-! ### what the current (anchor) code computes in general, and when it agrees with the chain rule
+
+For EVERY input (no separation hypothesis) `uniquify rule` is, by construction of the model, the
+greedy first-representative clustering (`uniqueInCluster`) run separately inside each norm cluster
+of `normClusters rule`, followed by the reordering by first occurrence.  The two rules can therefore
+only differ through their norm clusters, and they produce the same norm clusters exactly when they
+take the same "open a new cluster" decision at every step of the walk over the sorted norms
+(`anchorAgrees`, a decidable condition on the sorted squared norms). -/
+
+/-- general characterisation, any rule, any input: greedy clustering within each norm cluster -/
+theorem uniquify_eq_greedy_within_norm_clusters (rule : Rule) (t : Rat) (pts : List Pt) :
+    uniquify rule t pts =
+      (let S := (combine t 0 (normClusters rule t
+          (isortBy (fun x y : Item => decide (norm2 x.2 ≤ norm2 y.2)) (enumFrom 0 pts))))
+       { pts := (orderingOf S.1).map (·.2.2),
+         new2old := (orderingOf S.1).map (·.2.1),
+         old2new := (List.range pts.length).map (fun i =>
+           ((orderingOf S.1).map (·.1)).idxOf ((assoc S.2 i).getD 0)) }) := rfl
+
+/-- anchor and chain rule produce the same norm clusters iff `anchorAgrees` -/
+theorem anchor_eq_chain_iff (t : Rat) (pts : List Pt) :
+    normClusters .anchor t (isortBy (fun x y : Item => decide (norm2 x.2 ≤ norm2 y.2)) (enumFrom 0 pts))
+      = normClusters .chain t (isortBy (fun x y : Item => decide (norm2 x.2 ≤ norm2 y.2)) (enumFrom 0 pts))
+    ↔ anchorAgrees t pts = true := by
+  unfold anchorAgrees
+  generalize isortBy (fun x y : Item => decide (norm2 x.2 ≤ norm2 y.2)) (enumFrom 0 pts) = sorted
+  cases sorted with
+  | nil => simp [normClusters]
+  | cons x rest =>
+    simp only [normClusters, List.map_cons]
+    have := walk_anchor_eq_chain_iff t (x :: rest) (norm2 x.2) (norm2 x.2)
+    simpa only [List.map_cons] using this
+
+/-- sufficient condition (no separation hypothesis needed): if the decisions agree, the current
+    code computes exactly what the repaired algorithm computes -/
+theorem uniquify_anchor_eq_chain (t : Rat) (pts : List Pt) (h : anchorAgrees t pts = true) :
+    uniquify .anchor t pts = uniquify .chain t pts := by
+  have hnc := (anchor_eq_chain_iff t pts).mpr h
+  rw [uniquify_eq_greedy_within_norm_clusters, uniquify_eq_greedy_within_norm_clusters, hnc]
+
+/-- … hence on separated inputs on which the decisions agree the CURRENT code satisfies the property -/
+theorem anchor_correct_of_agree (hsep : Separated t pts cl) (h : anchorAgrees t pts = true) :
+    (uniquify .anchor t pts).new2old = firsts cl pts.length ∧
+    (uniquify .anchor t pts).pts = (firsts cl pts.length).map (fun i => pts.getD i []) ∧
+    (uniquify .anchor t pts).old2new = (uniquify .chain t pts).old2new := by
+  rw [uniquify_anchor_eq_chain t pts h]
+  refine ⟨uniq_first_member hsep, ?_, rfl⟩
+  rw [uniq_points hsep, uniq_first_member hsep]
+
+/-- on the F4 witness the decisions differ (and so do the results, `anchor_rule_splits_cluster`) -/
+example : anchorAgrees 100 [[0, 99905], [100004, 0], [100006, 0]] = false := by decide +kernel
+
+example : anchorAgrees (1 / 10) [[1, 0], [0, 101 / 100], [102 / 100, 0], [0, 0], [0, 103 / 100]] = true := by
+  decide +kernel
+
 /-! ### non-vacuity: concrete data satisfying the hypotheses, and the computed results -/
 
 /-- the first fixture of the test-suite (`tol = 1e-2`) is separated, with these cluster labels -/
@@ -388,6 +443,12 @@ example : ismember [[1, 3], [3, 3], [3, 2], [1, 3], [7, 0]] [[3, 3], [1, 3], [2,
 
 example : intersectSets (1 / 1000) [[0, 0], [1, 0], [2, 0]] [[2, 0], [0, 0], [0, 0], [5, 5]] =
     { ia := [0, 2], ib := [0, 1, 2], aInB := [true, false, true], inter := [[1, 2], [], [0]] } := by
+  decide +kernel
+
+/-- repeated points inside both sets: every copy is reported (multiplicities as coded) -/
+example : intersectSets (1 / 1000) [[1, 0], [1, 0], [3, 3]] [[1, 0], [7, 7], [1, 0], [3, 3], [3, 3]] =
+    { ia := [0, 1, 2], ib := [0, 2, 3, 4], aInB := [true, true, true],
+      inter := [[0, 2], [0, 2], [3, 4]] } := by
   decide +kernel
 
 end PorepyVerif.C34
